@@ -41,7 +41,7 @@ func (propC15) ID() string    { return "C15" }
 func (propC15) Race() bool    { return false }
 func (propC15) Level() string { return "exploration" }
 func (propC15) Rule() string {
-	return "one run = a seeded history of up to 40 operations (SetCache, SetAutoReload, SetDevelopmentMode, registration through RegisterString / ParseTemplate+RegisterTemplate / RegisterCompiledTemplate / LoadFromCompiledData with stored timestamps unrelated to the clock, RegisterLoader and ChainLoader.AddLoader in mid-history, loader content change / touch / delete, simulated-clock steps of 0 s, 1 s, backwards, one-shot loader faults EIO / mtime error, Load, Render directly or through a fixed wrapper template that includes / extends the name) over 1-3 names and 1-3 loaders out of {timestamp-aware in-memory loader with read counters, ArrayLoader, ChainLoader, FileSystemLoader and CompiledLoader on the simulated disk}. Every version of every source carries a unique tag, so the version a call served is read off its result; an executable state machine written from the property text gives the admissible versions, the error class and whether the loaders must / must not have been read. distinct = distinct event-log hash; non-trivial = the history contains a reload decision (cached entry with auto-reload on) or a cache-mode change before a Load/Render"
+	return "one run = a seeded history of up to 40 operations (SetCache, SetAutoReload, SetDevelopmentMode, registration through RegisterString / ParseTemplate+RegisterTemplate / RegisterCompiledTemplate / LoadFromCompiledData with stored timestamps unrelated to the clock, RegisterLoader and ChainLoader.AddLoader in mid-history, loader content change / touch / delete, simulated-clock steps of 0 s, 1 s, backwards, one-shot loader faults EIO / mtime error, Load, Render directly or through a fixed wrapper template that includes / extends the name; plus one empty-source leg per run: a fresh engine whose first loader holds a name with the empty string as source) over 1-3 names and 1-3 loaders out of {timestamp-aware in-memory loader with read counters, ArrayLoader, ChainLoader, FileSystemLoader and CompiledLoader on the simulated disk}. Every version of every source carries a unique tag, so the version a call served is read off its result; an executable state machine written from the property text gives the admissible versions, the error class and whether the loaders must / must not have been read. distinct = distinct event-log hash; non-trivial = the history contains a reload decision (cached entry with auto-reload on) or a cache-mode change before a Load/Render"
 }
 func (propC15) Assumptions() []string {
 	return []string{
@@ -908,6 +908,52 @@ func (propC15) Run(scI interface{}) (o *Outcome) {
 				// registration remains the latest event for the don't-care only until a loader serves the name
 			}
 		}
+	}
+	// ---- empty-source leg: a loader that HAS a name whose source is the empty string still has it ("the first that
+	// has the name wins"): it must be served (as an empty template), never skipped in favour of a later loader and
+	// never reported as not found. A fresh engine; the shape and the cache mode are functions of the world seed.
+	{
+		e2 := twig.New()
+		e2.SetCache(sc.WorldSeed/5%2 == 0)
+		later := twig.NewArrayLoader(map[string]string{"e": c15Src("e", 1)})
+		switch sc.WorldSeed % 5 {
+		case 0:
+			e2.RegisterLoader(twig.NewArrayLoader(map[string]string{"e": ""}))
+			e2.RegisterLoader(later)
+		case 1:
+			e2.RegisterLoader(twig.NewChainLoader([]twig.Loader{twig.NewArrayLoader(map[string]string{"e": ""}), later}))
+		case 2:
+			e2.RegisterLoader(twig.NewArrayLoader(map[string]string{"e": ""}))
+		case 3: // blanked after a first non-empty version
+			a := twig.NewArrayLoader(map[string]string{"e": c15Src("e", 2)})
+			e2.RegisterLoader(twig.NewArrayLoader(map[string]string{}))
+			e2.RegisterLoader(a)
+			e2.RegisterLoader(later)
+			if out, err := e2.Render("e", nil); err != nil || verOf(out) != 2 {
+				return fail("first loader that has the name does not win", fmt.Sprintf("empty-source leg, before blanking: %q %v", out, err))
+			}
+			a.SetTemplate("e", "")
+			if sc.WorldSeed/5%2 == 0 {
+				e2.SetCache(false) // the blanked version can only be seen by a re-read
+			}
+		case 4:
+			lt := &tsLoader{src: map[string]string{"e": ""}, mtime: map[string]int64{"e": 1}, loads: map[string]int{}, mtimes: map[string]int{}, fault: new(string), fired: new(int64)}
+			e2.RegisterLoader(lt)
+			e2.RegisterLoader(later)
+		}
+		for round := 0; round < 2; round++ {
+			t, err := e2.Load("e")
+			if err != nil {
+				return fail("a name whose source is empty is not served by the loader that has it", fmt.Sprintf("empty-source leg shape %d round %d: Load: %v", sc.WorldSeed%5, round, err))
+			}
+			if _, src, _, _ := twig.VerifTemplateMeta(t); src != "" {
+				return fail("a name whose source is empty is not served by the loader that has it", fmt.Sprintf("empty-source leg shape %d round %d: Load served %q", sc.WorldSeed%5, round, src))
+			}
+			if out, err := e2.Render("e", nil); err != nil || out != "" {
+				return fail("a name whose source is empty is not served by the loader that has it", fmt.Sprintf("empty-source leg shape %d round %d: Render: %q %v", sc.WorldSeed%5, round, out, err))
+			}
+		}
+		o.Probes["empty_source_legs"]++
 	}
 	o.Sample = map[string]interface{}{"loaders": sc.Loaders, "names": sc.Names, "ops": opsText(sc.Ops)}
 	return o
